@@ -212,6 +212,18 @@ pub fn case(t: &mut Tape, ctx: &CaseCtx) -> CaseResult {
     } else {
         script.reboot_allowed = vec![];
     }
+    if with_pings && t.flag() {
+        // ping focus: a clean update first, so that the generated (largely forged) answers meet the pings
+        let ok = |body: BodySpec| HttpSpec::Resp(RespSpec { status: 200, retry_after: vec![], retry_after_name_case: 0, body, auth: Auth::Authentic, prefix: false });
+        let mut pre = vec![ok(BodySpec::Doc(super::c05::offer_doc(&script.apps), 0))];
+        for _ in 0..3 {
+            pre.push(ok(BodySpec::DefaultNoUpdate));
+        }
+        pre.extend(script.http.drain(..));
+        script.http = pre;
+        script.installs = vec![];
+        script.check_decisions = vec![];
+    }
     let h = run_history(script.clone(), &lives);
     let (nontrivial, mut classes, forged_reports) = check_history(&h)?;
     if !forged_reports.is_empty() && !with_pings {
